@@ -260,6 +260,20 @@ fn gen_zcfg(dna: &mut Dna, input_len: usize, min_level: i32, allow_tricks: bool)
     let mem_level = if dna.chance(35) { dna.range(1, 9) as i32 } else { 8 };
     let mut flushes = vec![];
     let mut params_switch = None;
+    let (mut level, mut mem_level) = (level, mem_level);
+    if allow_tricks && dna.chance(10) {
+        // "block storm": tiny blocks (memLevel 1-2: a block every 127/255 tokens) and many
+        // flushes, with lazy matching, so that block boundaries meet every predictor state
+        mem_level = dna.range(1, 2) as i32;
+        if dna.chance(70) {
+            level = dna.range(4, 9) as i32;
+        }
+        let n = dna.range(5, 40);
+        let mut m = crate::dna::Mix::new(dna.u64());
+        for _ in 0..n {
+            flushes.push((m.below(input_len + 1), [1, 2, 3, 5, 5, 5][m.below(6)]));
+        }
+    }
     if allow_tricks {
         let nfl = dna.weighted(&[70, 15, 10, 5]);
         for _ in 0..nfl {
